@@ -465,7 +465,9 @@ class Query(
     @property
     def _has_row_limiting_clause(self) -> bool:
         return (
-            self._limit_clause is not None or self._offset_clause is not None
+            self._limit_clause is not None
+            or self._offset_clause is not None
+            or getattr(self, "_fetch_clause", None) is not None
         )
 
     def _get_options(
